@@ -18,6 +18,9 @@ pub broadcast axiom fn axiom_string_to_string(s: &String, r: String)
 // [trusted] Display for i32 prints spec_i32_to_string
 pub broadcast axiom fn axiom_i32_to_string(v: &i32, r: String)
     ensures #[trigger] vstd::string::to_string_from_display_ensures::<i32>(v, r) <==> r@ == spec_i32_to_string(*v);
+// [trusted] Display prints zero as "0"
+pub broadcast axiom fn axiom_zero_text()
+    ensures #[trigger] spec_i32_to_string(0) == "0"@;
 // [trusted] parsing what Display printed gives the number back
 pub broadcast axiom fn axiom_parse_print(n: i32)
     ensures #[trigger] spec_parse_i32(spec_i32_to_string(n)) == Some(n);
